@@ -15,7 +15,8 @@ def gen_case(rng, cfg):
     g = Gen(rng, catch_all_p=cfg.get("catch_all_p", 0.12), raise_p=cfg.get("raise_p", 0.06),
             none_p=cfg.get("none_p", 0.04), fail_cell_p=cfg.get("fail_cell_p", 0.0),
             handled_seq_p=cfg.get("handled_seq_p", 0.0), lam_p=cfg.get("lam_p", 0.0),
-            space_p=cfg.get("space_p", 0.0), block_p=cfg.get("block_p", 0.0))
+            space_p=cfg.get("space_p", 0.0), block_p=cfg.get("block_p", 0.0), via_p=cfg.get("via_p", 0.0),
+            default_p=cfg.get("default_p", 0.0))
     if cfg.get("no_try_p") and rng.random() < cfg["no_try_p"]:
         g.no_try = True
     ncells = rng.randint(cfg.get("min_cells", 2), cfg.get("max_cells", 6))
@@ -58,18 +59,31 @@ def gen_case(rng, cfg):
             pool = [x for x in cells if exists[x["id"]]]
             if pool:
                 c = rng.choice(pool)
+        dfl = c.get("defaults") or []
         if k == "eval":
-            ops.append(["eval", str(c["id"])] + g.args(c["nparams"]))
+            ops.append(["eval", str(c["id"])] + g.spelled_args(c["nparams"], dfl))
         elif k == "reeval" and ops:
             prev = [o for o in ops if o[0] == "eval"]
-            ops.append(list(rng.choice(prev)) if prev else ["eval", str(c["id"])] + g.args(c["nparams"]))
+            ops.append(list(rng.choice(prev)) if prev else ["eval", str(c["id"])] + g.spelled_args(c["nparams"], dfl))
+            if g.default_p and prev and rng.random() < 0.6:
+                ops[-1] = respell(rng, cells, ops[-1])
         elif k == "set":
             cc = [x for x in cells if x["cached"]] or cells
             c = rng.choice(cc)
             v = "N" if rng.random() < 0.08 else str(rng.randint(0, 9))
-            ops.append(["set", str(c["id"])] + g.args(c["nparams"]) + ["=", v])
+            ops.append(["set", str(c["id"])] + g.spelled_args(c["nparams"], c.get("defaults") or [], positional=True)
+                       + ["=", v])
+            if g.default_p and rng.random() < 0.4:
+                # the value edit aims at an element that was requested before, under another spelling
+                prev = [o for o in ops[:-1] if o[0] in ("eval", "set", "clearat") and o[1] == str(c["id"])]
+                if prev:
+                    ops[-1] = ["set"] + respell(rng, cells, rng.choice(prev), positional=True)[1:] + ["=", v]
         elif k == "clearat":
-            ops.append(["clearat", str(c["id"])] + g.args(c["nparams"]))
+            ops.append(["clearat", str(c["id"])] + g.spelled_args(c["nparams"], dfl))
+            if g.default_p and rng.random() < 0.5:
+                prev = [o for o in ops[:-1] if o[0] in ("eval", "set") and o[1] == str(c["id"])]
+                if prev:
+                    ops[-1] = ["clearat"] + respell(rng, cells, rng.choice(prev))[1:]
         elif k == "clear":
             ops.append(["clear", str(c["id"])])
         elif k == "clearall":
@@ -91,6 +105,101 @@ def gen_case(rng, cfg):
         elif k == "maxdepth":
             ops.append(["maxdepth", str(rng.choice(cfg.get("limits", [3, 4, 5, 6, 8, 10, 14, 100000])))])
     return {"cells": cells, "refs": refs, "n_rn": g.n_rn, "maxdepth": maxdepth, "ops": ops}
+
+
+def op_args(op):
+    """the argument tokens of an eval / set / clearat operation"""
+    return op[2:op.index("=")] if "=" in op else op[2:]
+
+
+def canon_key(case_or_cells, cid, toks):
+    """the element the argument tokens denote: full key as a tuple of values, by Python's own binder on a signature
+    built from the program description (independent of modelx); None when the spelling does not bind"""
+    from .expr import py_bind
+    cells = case_or_cells["cells"] if isinstance(case_or_cells, dict) else case_or_cells
+    c = next(x for x in cells if x["id"] == int(cid))
+    pos, kw = execworld.split_args(toks)
+    return py_bind(c["nparams"], c.get("defaults") or [], pos, kw)
+
+
+def canon_node(case_or_cells, cid, toks):
+    key = canon_key(case_or_cells, cid, toks)
+    return None if key is None else node_s(int(cid), key)
+
+
+def respell(rng, cells, op, positional=False):
+    """the same request (same cells, same element) spelled another way: defaults left out or written out, positional
+    or keyword arguments in any order; positional=True: as a subscript (trailing defaults may be left out).
+    -> [op kind, cid, tokens...] (an `eval`, unless the caller renames it)"""
+    c = next(x for x in cells if x["id"] == int(op[1]))
+    key = canon_key(cells, op[1], op_args(op))
+    if key is None:
+        return ["eval", op[1]] + [t for t in op_args(op) if not (positional and "=" in t)]
+    n, d = c["nparams"], c.get("defaults") or []
+    req = n - len(d)
+    # a parameter may be left out when its value is its default
+    can_drop = [i >= req and key[i] == d[i - req] for i in range(n)]
+    if positional:
+        m = n
+        while m > 0 and can_drop[m - 1] and rng.random() < 0.7:
+            m -= 1
+        return ["eval", op[1]] + [val_s(v) for v in key[:m]]
+    supplied = [i for i in range(n) if not (can_drop[i] and rng.random() < 0.6)]
+    maxpos = 0
+    while maxpos in supplied:
+        maxpos += 1
+    npos = rng.randint(0, maxpos)
+    kws = [i for i in supplied if i >= npos]
+    if rng.random() < 0.4:
+        rng.shuffle(kws)
+    return ["eval", op[1]] + [val_s(key[i]) for i in range(npos)] + ["k%d=%s" % (i, val_s(key[i])) for i in kws]
+
+
+def all_spellings(nparams, defaults, key, limit=14):
+    """Every way Python lets one write the arguments `key` (a full tuple) for a signature of `nparams` parameters whose
+    last ones have `defaults`: any subset of the parameters whose value equals their default left out, a positional
+    prefix of any length, the rest by keyword in parameter order and in reverse.  -> [(label, pos list, {index: value})],
+    the fully positional spelling first; at most `limit`, spread over the whole list."""
+    import itertools
+    n = nparams
+    req = n - len(defaults)
+    droppable = [i for i in range(req, n) if key[i] == defaults[i - req] and type(key[i]) is type(defaults[i - req])]
+    out, seen = [], set()
+    for k in range(len(droppable) + 1):
+        for drop in itertools.combinations(droppable, k):
+            supplied = [i for i in range(n) if i not in drop]
+            maxpos = 0
+            while maxpos in supplied:
+                maxpos += 1
+            for npos in range(maxpos, -1, -1):
+                kws = [i for i in supplied if i >= npos]
+                for order in (kws, kws[::-1]):
+                    sig = (npos, tuple(order))
+                    if sig in seen:
+                        continue
+                    seen.add(sig)
+                    label = "(%s)" % ", ".join([val_s(key[i]) for i in range(npos)] +
+                                               ["a%d=%s" % (i, val_s(key[i])) for i in order])
+                    out.append((label, [key[i] for i in range(npos)], {i: key[i] for i in order}))
+    if len(out) > limit:
+        step = (len(out) - 1) / float(limit - 1)
+        out = [out[int(round(j * step))] for j in range(limit)]
+    return out
+
+
+def spelled_call(cells, pos, kw, subscript=False):
+    """request an element of the interface `cells` the way it is spelled"""
+    if subscript:
+        return cells[tuple(pos) if len(pos) != 1 else pos[0]]
+    return cells(*pos, **{"a%d" % i: v for i, v in kw.items()})
+
+
+def plain_world(case):
+    """the program as plain Python functions (plainworld.PlainWorld); a formula must not return None where modelx would
+    refuse to store it (cached cells that do not allow None, by the documented rule)"""
+    from .plainworld import PlainWorld
+    enforce = {c["id"]: bool(c["cached"]) and not documented_allow_none(case, c["id"]) for c in case["cells"]}
+    return PlainWorld(case["cells"], case["refs"], case["n_rn"], enforce)
 
 
 def case_json(case):
@@ -116,6 +225,8 @@ def _untuple(x):
     if isinstance(x, list):
         if x and isinstance(x[0], str) and x[0] == "call":
             return ("call", x[1], [_untuple(a) for a in x[2]])
+        if x and isinstance(x[0], str) and x[0] == "callk":
+            return ("callk", x[1], [_untuple(a) for a in x[2]], [(i, _untuple(a)) for i, a in x[3]])
         return tuple(_untuple(a) for a in x)
     return x
 
